@@ -354,8 +354,9 @@ JudgeCLOSE(case, obs, j) ==
       lastSR == IF acc = {} THEN 0 ELSE MaxOf(acc)
       a == case.script[lastSR]
       \* nothing is claimed about the end-of-response checks unless the response is well-formed and all of it bytes
-      open == lastSR # 0 /\ (StatusClass(a.st) # "valid" \/ ~HdWell(a.hd) \/ NonBytesSent(case, obs, c.na, c.nn)
-                             \/ \E i \in ExecutedTo(case, obs, c.na) : case.script[i].k = "SR" /\ obs.acts[i].exc # "")
+      \* (a start_response the server refused leaves the monitor and the server with different ideas of the response)
+      open == (\E i \in ExecutedTo(case, obs, c.na) : case.script[i].k = "SR" /\ obs.acts[i].exc # "")
+              \/ (lastSR # 0 /\ (StatusClass(a.st) # "valid" \/ ~HdWell(a.hd) \/ NonBytesSent(case, obs, c.na, c.nn)))
       code == Code3(a.st.v)
       sent == SentW(case, obs, 1, c.na) + SentY(obs, 1, c.nn)
       head == case.env.method = "HEAD" /\ "REQUEST_METHOD" \notin RangeOf(case.env.missing)
